@@ -179,7 +179,10 @@ impl Property for C06 {
             let base = with_multi((strat::ring_cfg(3), proptest::collection::vec(strat::step(strat::kind_basic().boxed(), 1, 6), 0..70)).prop_map(|(cfg, steps)| History { cfg, steps, teardown: None }).boxed(), 1);
             let sched = (1u8..=3, proptest::collection::vec(1u8..=2, 1..=2), 1u8..=3, proptest::collection::vec(proptest::bool::weighted(0.8), 3), proptest::bool::weighted(0.25), proptest::collection::vec(any::<u16>(), 0..80), strat::maybe_pct(3, 120))
                 .prop_map(|(sq_log2, droppers, polls, complete_before_poll, full_queue, drop_tape, pct)| HCase::Drop(super::c06b::DropCase { sq_log2, droppers, polls, complete_before_poll, full_queue, drop_tape, pct }));
-            let composite = C10::strategy(Tier::Quick).prop_map(HCase::Composite);
+            let composite = (C10::strategy(Tier::Quick), proptest::option::weighted(0.4, 0u8..6)).prop_map(|(mut c, abandon)| {
+                c.abandon_after = abandon;
+                HCase::Composite(c)
+            });
             prop_oneof![8 => base, 2 => sched, 1 => composite].boxed()
         }
     }
